@@ -57,7 +57,7 @@ impl Prop for C17 {
         vec![
             Phase::new("exhaustive", exhaustive_count(l)).exhaustive(true).min_cases(tier.pick(10_000, 100_000)).timeouts(60, tier.pick(400, 3000)),
             Phase::new("lazy-waiters", waiters_count(tier.pick(7, 9))).exhaustive(true).min_cases(tier.pick(3000, 25_000)).timeouts(60, tier.pick(400, 3000)),
-            Phase::new("random", tier.pick(6000, 200_000)).min_cases(tier.pick(1000, 40_000)).timeouts(60, tier.pick(400, 3000)),
+            Phase::new("random", tier.pick(6000, 100_000)).min_cases(tier.pick(1000, 40_000)).timeouts(60, tier.pick(400, 3000)),
         ]
     }
     fn worker(&self, ctx: &WorkerCtx) -> Box<dyn Worker> {
